@@ -47,7 +47,10 @@ def gen(rng, tier):
            # the application's connect handler uses the namespace at once:
            # it emits with a callback (which the server never acknowledges
            # on this connection)
-           'connect_emits': rng.random() < 0.3}
+           'connect_emits': rng.random() < 0.3,
+           # ... and so does its disconnect handler (a last message, with a
+           # callback, from inside the handler)
+           'disc_emits': rng.random() < 0.3}
     ops = []
     n = rng.randrange(2, 5)
     for _ in range(n):
@@ -394,6 +397,21 @@ def _run(case, cfg, w):
 
     c = w.add_client('c', reconnection=False)
 
+    def emit_from_disconnect(ns):
+        def cb(*a):
+            cb_log.append(('from-disconnect', a))
+        if w.mode == 'async':
+            async def go():
+                try:
+                    await c.emit('ev', 'bye', namespace=ns, callback=cb)
+                except socketio.exceptions.BadNamespaceError:
+                    rec.count('app.emit_from_disconnect_refused')
+            return go()
+        try:
+            c.emit('ev', 'bye', namespace=ns, callback=cb)
+        except socketio.exceptions.BadNamespaceError:
+            rec.count('app.emit_from_disconnect_refused')
+
     def emit_from_connect(ns):
         # (the namespace may have been ended again by the time the handler
         # gets to its emit - a refusal of '/' resets the client: then the
@@ -418,8 +436,12 @@ def _run(case, cfg, w):
             # the application's disconnect handler may take a while (and, as
             # a coroutine, suspend): notifications for other namespaces are
             # processed meanwhile
-            return [('pause', w.choices.pick('app', (0.0, 0.0, 0.002, 0.01),
-                                             'dpause')), ('ret', None)]
+            steps = [('pause', w.choices.pick('app', (0.0, 0.0, 0.002, 0.01),
+                                              'dpause'))]
+            if cfg.get('disc_emits') and (w.mode == 'thread' or coroutine):
+                dns = label[2] if label[2] != '*' else args[0]
+                steps.append(('do', lambda: emit_from_disconnect(dns)))
+            return steps + [('ret', None)]
         if label[3] == 'connect' and cfg.get('connect_emits'):
             ns = label[2] if label[2] != '*' else args[0]
             return [('do', lambda: emit_from_connect(ns)), ('ret', None)]
